@@ -48,8 +48,10 @@ Length == IsEv("length") /\ firstReq' = AddReq(firstReq, E.loads) /\ UNCHANGED <
 Big == IsEv("big") /\ UNCHANGED <<D, firstReq, nIter, yielded>>
 \* verdict of the Go race detector over a batch of concurrent scenarios (C17)
 RaceCheck == IsEv("racecheck") /\ UNCHANGED <<D, firstReq, nIter, yielded>>
+\* the environment makes every block available again; the node keeps its cache
+Heal == IsEv("heal") /\ D' = [D EXCEPT !.missing = <<>>] /\ UNCHANGED <<firstReq, nIter, yielded>>
 Done == l = Len(Trace) + 1 /\ UNCHANGED vars
-Next == Reset \/ Dir \/ OpenNode \/ Lookup \/ Iter \/ Length \/ Big \/ RaceCheck \/ Done
+Next == Reset \/ Dir \/ OpenNode \/ Lookup \/ Iter \/ Length \/ Big \/ RaceCheck \/ Heal \/ Done
 TraceSpec == Init /\ [][Next]_vars
 
 (***************************************************************************)
@@ -84,7 +86,8 @@ Cond_NoPanic == (Has /\ "e" \in DOMAIN Ev) => (Ev.e # "panic" /\ Ev.e # "budget"
 
 \* ---- C02: the reified directory is the map of its entries ----
 Cond_C02_Stored == (Has /\ Ev.ev = "dir" /\ Ev.builder # "raw") =>
-    IF Ev.kind = "hamt"
+    IF Ev.kind = "unwalkable" THEN FALSE      \* what the builder stored is not a readable directory at all
+    ELSE IF Ev.kind = "hamt"
     THEN LET it == IterS(Ev.S, 1, {}).pairs IN
          /\ NoDup([k \in 1 .. Len(it) |-> it[k][1]])
          /\ SeqSet(it) = SeqSet(Ev.expect)
